@@ -482,7 +482,8 @@ fn object(p: &mut Parser) -> CompletedMarker {
 			if plus {
 				p.bump();
 			}
-			let params = if p.at(T!['(']) {
+			// A method can't be extended: `a+(x): x` has no meaning
+			let params = if !plus && p.at(T!['(']) {
 				params_desc(p);
 				visibility(p);
 				expr(p);
